@@ -570,11 +570,24 @@ func shareTransform(t *rapid.T, g *Grammar, o GenOpts) {
 			return ex(KAny, ex(KSeqOf, term(), term()), ex(KSeqOf, term(), term(), term()), ex(KOpt, term()))
 		}
 	}
+	silent := o.Suppress && o.Single && rapid.IntRange(0, 2).Draw(t, "silentshare") == 0
+	smallOrSilent := func() *Expr {
+		if silent {
+			// every alternative fails silently: the rule then returns neither a result nor an error,
+			// whatever the context has recorded by the time it is asked
+			k := KAny
+			if rapid.Bool().Draw(t, "silentchoice") {
+				k = KChoice
+			}
+			return ex(k, ex(KSuppress, term()), ex(KSuppress, ex(KSeqOf, term(), term())))
+		}
+		return small()
+	}
 	// the shared rule: a fresh rule in a new lowest layer
 	for i := range g.Layer {
 		g.Layer[i]++
 	}
-	g.Rules = append(g.Rules, small())
+	g.Rules = append(g.Rules, smallOrSilent())
 	g.Layer = append(g.Layer, 0)
 	s := len(g.Rules) - 1
 	host := rapid.IntRange(0, s-1).Draw(t, "host")
@@ -593,6 +606,15 @@ func shareTransform(t *rapid.T, g *Grammar, o GenOpts) {
 		}
 		return rf(s)
 	}
+	if silent {
+		// W = Single(Optional(S)) in front of an alternative that gives up after recording a failure
+		// further right, and in front of one that may match: S is asked twice at one position, the
+		// second time from the cache, with the context knowing more
+		w := func() *Expr { return ex(KSingle, ex(KOpt, rf(s))) }
+		a := term()
+		alts = append(alts, ex(KSeqOf, w(), ex(KSeqTry, a, term()), term()), ex(KSeqOf, w(), tm(a.ch()), term()))
+		m = 0
+	}
 	for i := 0; i < m; i++ {
 		switch rapid.IntRange(0, 3).Draw(t, "use") {
 		case 0:
@@ -607,6 +629,9 @@ func shareTransform(t *rapid.T, g *Grammar, o GenOpts) {
 	}
 	alts = append(alts, g.Rules[host])
 	kind := KAny
+	if silent && rapid.Bool().Draw(t, "silenthostchoice") {
+		kind = KChoice
+	}
 	g.Rules[host] = &Expr{K: kind, Kids: alts}
 	g.number()
 }
